@@ -11,8 +11,9 @@ from fractions import Fraction
 import numpy as np
 from common import *
 
-IMPORTS = ("From CV Require Import Base.Cmp Base.Ext Model.C02_MH Model.C02_Tune Proofs.C02_Balance.\n"
-           "From Coq Require Import QArith Reals Lra.\nFrom Interval Require Import Tactic.")
+# one physical line: common.run_shards maps coqc's error lines to ENCLOSURE cases assuming a one-line header
+IMPORTS = ("From CV Require Import Base.Cmp Base.Ext Model.C02_MH Model.C02_Tune Proofs.C02_Balance. "
+           "From Coq Require Import QArith Reals Lra. From Interval Require Import Tactic.")
 RULE = ("one case = one transition (or one 3-step chain) of one sampler site (10 sites: 5 kernels x 2 interfaces) on one target "
         "(quadratic / quartic user-defined log-densities with optional NaN/-inf/+inf region, cuqi Gaussian posteriors with integer "
         "matrices), dims 1-3, scales scalar/vector/tiny/>1, histories fresh / after warm-up (tuned scale) / after state reload, "
@@ -1567,8 +1568,7 @@ def tune_cases(ctx, recs):
 
 def legacy_adapt_cases(ctx):
     """legacy sample_adapt of MH / pCN / CWMH: the scale after each of the first adaptation steps (read through the callback)
-    against the model run on the acceptance flags recovered from the returned chain (CWMH: per component; its recorded chain
-    is shifted by one column because single_update writes into the previous column -- C14 finding -- which is detected)"""
+    against the model run on the acceptance flags recovered from the states handed to the callback (CWMH: per component)"""
     rng = ctx.rng
     out = []
     for site in ("L.MH", "L.pCN", "L.CWMH"):
@@ -1584,17 +1584,22 @@ def legacy_adapt_cases(ctx):
             drv = Driver(site, T, scale0, x0, prior=prior)
             seen = {}
 
+            pts_ = {}
+
             def cb(smp, i_):
                 seen[int(i_)] = np.array(drv.s.scale, dtype=float).reshape(-1).copy()
+                pts_[int(i_)] = np.array(smp, dtype=float).reshape(-1).copy()     # the state right after transition i_
             drv.s.callback = cb
             seed = rng.randint(0, 10 ** 6)
             with ScriptedRandom(seed=seed), _quiet(), np.errstate(all="ignore"):
                 r = drv.s.sample_adapt(N)
-            S = np.array(r.samples, dtype=float)
-            if np.array_equal(S[:, 0], np.array(x0)):
-                states = [S[:, t] for t in range(S.shape[1])]
-            else:                                         # shifted recording (legacy CWMH)
-                states = [np.array(x0, dtype=float)] + [S[:, t] for t in range(S.shape[1] - 1)]
+            # states from the copies taken in the callback (the returned chain of legacy CWMH is shifted by one column because
+            # single_update writes into the previous column -- C14 finding -- so it is not used here)
+            states = [np.array(x0, dtype=float)]
+            t_ = 1
+            while t_ in pts_:
+                states.append(pts_[t_])
+                t_ += 1
             ncomp = d if kind == "cw" else 1
             if kind == "cw":
                 acc = [[1] * d] + [[int(a_ != b_) for a_, b_ in zip(states[t], states[t - 1])] for t in range(1, len(states))]
